@@ -168,6 +168,11 @@ func (s *Solver) Ensure(terms []*Term) {
 
 // Check decides satisfiability of the conjunction of lits.
 func (s *Solver) Check(lits []*Term) SatResult {
+	if len(lits) == 0 {
+		// the empty conjunction is satisfiable (and "(check-sat-assuming ( ))"
+		// is not accepted by every solver)
+		return Sat
+	}
 	if s.ndefs > 200000 {
 		s.restart()
 	}
